@@ -17,7 +17,8 @@ def gen_cases(ctx, n):
     cases = []
     for i in range(n):
         c = mc.gen_history(ctx.rng, ["assign", "assign", "assign_flat"][i % 3], nops=ctx.rng.randint(3, 14),
-                           keys=("strings" if i % 2 else None))       # keys that need escaping in the generated source
+                           keys=("strings" if i % 2 else None),       # keys that need escaping in the generated source
+                           values="mixed" if i % 5 == 4 else "int")  # 1 in 5 over mixed value types (twin oracle only)
         # function arguments: leaves that hold no definition at the end of the history
         flat = lambda p: [p[0]] + [s[1] for s in p[1:]]
         defined = set()
@@ -35,7 +36,7 @@ def gen_cases(ctx, n):
             continue
         k = ctx.rng.choice([1, 1, 2, 2, 3, 4])
         args = ctx.rng.sample(free, min(k, len(free)))
-        c["ops"].append(["genfun", args, [ctx.rng.randint(-9, 9) for _ in args]])
+        c["ops"].append(["genfun", args, [mc.gen_value(ctx.rng, "mixed" if i % 5 == 4 else "int") for _ in args]])
         if ctx.rng.random() < 0.4:      # a second call of a new function on the updated state
             args2 = ctx.rng.sample(free, min(ctx.rng.choice([1, 2]), len(free)))
             c["ops"].append(["genfun", args2, [ctx.rng.randint(-9, 9) for _ in args2]])
@@ -76,7 +77,7 @@ def oracle(cases, obs):
                 fails.append((i, k, f"the generated source does not list exactly the triggered tasks: {g['listed_mismatch']}")); break
             if g.get("order"):
                 fails.append((i, k, f"the generated source lists a consumer before its producer: {g['order']}")); break
-            if g["err"] is not None and not g.get("cycle") and taint is None:
+            if g["err"] is not None and not g.get("cycle") and taint is None and not g.get("twin_err"):
                 fails.append((i, k, f"the generated function raised {g['err']}")); break
             if g["err"] is None and g.get("equal") is False and not g.get("cycle") and taint is None and not g.get("twin_err"):
                 fails.append((i, k, f"containers differ from assigning through the manager: {g.get('diff')}")); break
